@@ -180,6 +180,9 @@ type Exec struct {
 	panicSeen bool
 	fnObjs    map[string]*types.Func
 	heapGo    map[string]types.Type
+	ixSeen    map[string]bool
+	inGoal    int
+	goalIx    []string
 	topTargets []modTarget
 }
 
@@ -208,7 +211,18 @@ func (ex *Exec) oblige(st *State, kind string, props []string, goal, desc string
 	if props == nil {
 		props = ex.curProps
 	}
-	o := &Obligation{Name: name, Kind: kind, Func: ex.top.FullName(), Props: props, Assumes: st.assumes[:len(st.assumes):len(st.assumes)], Goal: goal, Desc: desc, Pos: ex.posString(pos)}
+	as := st.assumes[:len(st.assumes):len(st.assumes)]
+	if len(ex.goalIx) > 0 {
+		seen := map[string]bool{}
+		for _, g := range ex.goalIx {
+			if !seen[g] {
+				seen[g] = true
+				as = append(as, g)
+			}
+		}
+		ex.goalIx = nil
+	}
+	o := &Obligation{Name: name, Kind: kind, Func: ex.top.FullName(), Props: props, Assumes: as, Goal: goal, Desc: desc, Pos: ex.posString(pos)}
 	ex.obls = append(ex.obls, o)
 }
 
@@ -356,4 +370,32 @@ func (ex *Exec) typeInvWith(alloc, arralloc string, v Val) string {
 		return sAnd(cs...)
 	}
 	return "true"
+}
+
+// ixFn: uninterpreted predicate that occurs only in quantifier patterns and in positive ground
+// facts (ix e) for index expressions e; it cannot affect satisfiability and only guides
+// instantiation.
+func (ex *Exec) ixFn() string {
+	n := sym("ix")
+	ex.w.declFun(n, []*Sort{sInt}, sBool)
+	return n
+}
+
+func (ex *Exec) noteIx(t string) {
+	if ex.bounded > 0 || strings.Contains(t, "q_") || strings.Contains(t, "lam_") || strings.Contains(t, "cl_") {
+		return
+	}
+	if ex.inGoal > 0 {
+		// index expressions of a goal (they mention its skolem constants) belong to that obligation
+		ex.goalIx = append(ex.goalIx, "("+ex.ixFn()+" "+t+")")
+		return
+	}
+	if ex.ixSeen == nil {
+		ex.ixSeen = map[string]bool{}
+	}
+	if ex.ixSeen[t] {
+		return
+	}
+	ex.ixSeen[t] = true
+	ex.w.axioms = append(ex.w.axioms, "("+ex.ixFn()+" "+t+")")
 }
